@@ -373,12 +373,24 @@ func (s *stack) String() string {
 	return result
 }
 
+// debugData returns the data handed to the stack callbacks of a debugger: a
+// copy, as the state snapshots are, so that a debugger can't reach the item on
+// the stack (or the script it was pushed from) through it.
+func (s *stack) debugData(bb []byte) []byte {
+	if _, ok := s.debug.(*nopDebugger); ok || bb == nil {
+		return bb
+	}
+	cc := make([]byte, len(bb))
+	copy(cc, bb)
+	return cc
+}
+
 func (s *stack) beforeStackPush(bb []byte) {
-	s.debug.BeforeStackPush(s.sh.State(), bb)
+	s.debug.BeforeStackPush(s.sh.State(), s.debugData(bb))
 }
 
 func (s *stack) afterStackPush(bb []byte) {
-	s.debug.AfterStackPush(s.sh.State(), bb)
+	s.debug.AfterStackPush(s.sh.State(), s.debugData(bb))
 }
 
 func (s *stack) beforeStackPop() {
@@ -386,7 +398,7 @@ func (s *stack) beforeStackPop() {
 }
 
 func (s *stack) afterStackPop(bb []byte) {
-	s.debug.AfterStackPop(s.sh.State(), bb)
+	s.debug.AfterStackPop(s.sh.State(), s.debugData(bb))
 }
 
 type boolStack interface {
